@@ -1122,6 +1122,17 @@ func c19RunRepeated(dir string, lazy int, res *vr.Result, viol func(sig, desc st
 		path := filepath.Join(dir, fmt.Sprintf("repeated_%d.bin", lazy))
 		a, _, _ := c19Populate(cf, id, &Args{Size: c19CurSize, LazyCacheTTL: lazy, DumpFile: path, DumpInterval: 3600})
 		b, _, _ := c19Populate(cf, id, &Args{Size: c19CurSize, LazyCacheTTL: lazy})
+		aOpen, bOpen := true, true
+		defer func() {
+			// on every path: a cache left open keeps its tickers (and the virtual clock) running for ever
+			if aOpen {
+				a.args.DumpFile = ""
+				a.Close()
+			}
+			if bOpen {
+				b.Close()
+			}
+		}()
 		for k, c := range []*Cache{a, a, b, a} {
 			code, d := c19Get(c)
 			if code != 200 {
@@ -1132,8 +1143,10 @@ func c19RunRepeated(dir string, lazy int, res *vr.Result, viol func(sig, desc st
 			res.Transitions++
 		}
 		b.Close()
+		bOpen = false
 		last := c19Snapshot(a)
 		a.Close() // writes dump_file
+		aOpen = false
 		if d, err := os.ReadFile(path); err != nil {
 			viol("repeated/no-dump-on-close", "Close did not write the dump file: "+err.Error(), nil)
 		} else {
